@@ -171,7 +171,7 @@ type c13Doc struct {
 	desc   string // op token for the model
 	family string
 	fault  string
-	extra  bool // carries a key outside the documented set (known finding unknown-keys-ignored)
+	extra  bool // carries a key outside the documented set
 }
 
 // ---------------------------------------------------------------- rendering
@@ -939,9 +939,7 @@ func (g *c13Gen) genPatch() c13Doc {
 }
 
 // c13Faults: single-fault mutations that make a valid document invalid (per the documented schema).
-// ("extraProperty" is the class of the known finding unknown-keys-ignored: not generated at random,
-// replayed by corpus cases 3 and 4.)
-var c13Faults = []string{"unknownOperation", "missingRequired", "wrongPayloadType", "emptyPayload", "operationNotString", "missingOperation"}
+var c13Faults = []string{"unknownOperation", "extraProperty", "missingRequired", "wrongPayloadType", "emptyPayload", "operationNotString", "missingOperation"}
 
 func c13ApplyFault(d c13Doc, fault string, rng *Rng) c13Doc {
 	m := map[string]any{}
@@ -962,7 +960,7 @@ func c13ApplyFault(d c13Doc, fault string, rng *Rng) c13Doc {
 	case "operationNotString":
 		m["operation"] = PickOne(rng, []any{7, []any{"Create"}, map[string]any{"a": "Create"}})
 	case "extraProperty":
-		m[PickOne(rng, []string{"colour", "ignoreMissingObjects", "spec", "metadata"})] = "red"
+		m[PickOne(rng, []string{"colour", "ignoreMissingObjects", "spec", "metadata", "Object", "Kind"})] = "red"
 	case "missingRequired":
 		var cands []string
 		if payload != "" {
@@ -994,7 +992,7 @@ func c13ApplyFault(d c13Doc, fault string, rng *Rng) c13Doc {
 		}
 	}
 	if fault == "extraProperty" {
-		// the typed decoders drop the key: the code sees the original document
+		// the rest of the document stays as it is (the unrepaired typed decoders dropped the key)
 		return c13Doc{m: m, valid: d.valid, inline: d.inline, desc: d.desc, family: d.family, fault: fault, extra: true}
 	}
 	return c13Doc{m: m, valid: false, inline: true, desc: "D/bg/1/1/0", family: d.family, fault: fault}
@@ -1041,7 +1039,6 @@ func c13RunCase(c *Case, rng *Rng, init map[int]c13Obj, initTok string, docs []c
 		x := ""
 		if d.extra {
 			x = " x"
-			c.Known = "unknown-keys-ignored"
 		}
 		c.Op(fmt.Sprintf("doc %s %s %s%s", c13B01(d.valid), c13B01(d.inline), d.desc, x), "ok")
 	}
@@ -1162,7 +1159,7 @@ func runC13(r *Run) {
 				docs = append(docs, g.genCreate())
 			}
 			docs = append(docs, c13ApplyFault(g.genDelete(), "extraProperty", rng))
-			c.Desc = "known finding unknown-keys-ignored: a document with a key outside the documented set is applied"
+			c.Desc = "corpus (repaired defect): a document with a key outside the documented set must fail the whole stream"
 			c.Nontrivial = true
 			c.Note("corpus")
 			c13RunCase(c, rng, map[int]c13Obj{1: {1: 2}}, "1:1=s2", docs, false)
